@@ -562,6 +562,33 @@ impl Workspace {
         c
     }
 
+    /// Like `change_from`, but the files of `via` are listed first with their intermediate texts
+    /// and then once more with their final text: one `Change` with several entries per file.
+    pub fn change_from_via(&self, old: &Workspace, force_all: bool, via: &[(u32, String)]) -> ide::Change {
+        if via.is_empty() {
+            return self.change_from(old, force_all);
+        }
+        let mut c = ide::Change::default();
+        if force_all || self.pkgs != old.pkgs {
+            c.set_package_graph(self.build_graph());
+        }
+        if force_all || self.roots != old.roots || self.paths() != old.paths() {
+            c.set_roots(self.build_roots());
+            c.set_structural_change();
+        }
+        for (id, text) in via {
+            if self.files.contains_key(id) {
+                c.change_file(ide::FileId(*id), text.as_str().into());
+            }
+        }
+        for (id, (_, text)) in &self.files {
+            if force_all || old.files.get(id).map(|(_, t)| t) != Some(text) || via.iter().any(|(v, _)| v == id) {
+                c.change_file(ide::FileId(*id), text.as_str().into());
+            }
+        }
+        c
+    }
+
     fn paths(&self) -> Vec<(u32, &str)> {
         self.files.iter().map(|(i, (p, _))| (*i, p.as_str())).collect()
     }
